@@ -230,9 +230,10 @@ pub fn run(args: &[String]) -> Value {
         // behaviours of the LocalIds machine: one tick = 15 s, RTT = 5 s
         const TICK: u64 = 15_000_000;
         let mut seen = std::collections::HashSet::new();
+        let cap: usize = args.get(2).and_then(|x| x.parse().ok()).unwrap_or(usize::MAX);
         for line in std::fs::read_to_string(source).unwrap().lines() {
             // TLC prints each behaviour as a quoted JSON string, possibly more than once
-            if !line.starts_with("\"[") || !seen.insert(line.to_string()) { continue; }
+            if !line.starts_with("\"[") || seen.len() >= cap || !seen.insert(line.to_string()) { continue; }
             let inner: String = match serde_json::from_str(line) { Ok(v) => v, Err(_) => continue };
             let h: Vec<Value> = match serde_json::from_str(&inner) { Ok(v) => v, Err(_) => continue };
             let init = &h[0];
@@ -245,6 +246,8 @@ pub fn run(args: &[String]) -> Value {
             // the machine numbers packets from 1; the frame buffer from 0
             let mut pnmap: std::collections::HashMap<u64, u64> = Default::default();
             let mut mpn = 1u64;
+            // what the (honest) peer holds in THIS run: ids whose NEW_CONNECTION_ID frame the real registry transmitted
+            let mut held: Vec<u64> = vec![0];
             for st in &h[1..] {
                 let op = st["op"].as_str().unwrap();
                 let ev = match op {
@@ -254,6 +257,7 @@ pub fn run(args: &[String]) -> Value {
                         pnmap.insert(mpn, ev["pn"].as_u64().unwrap());
                         mpn += 1;
                         let wrote: Vec<u64> = ev["frames"].as_array().unwrap().iter().map(|f| f["seq"].as_i64().unwrap() as u64).collect();
+                        for s in &wrote { if !held.contains(s) { held.push(*s); } }
                         let expect: Vec<u64> = st["wrote"].as_array().unwrap().iter().map(|x| x.as_u64().unwrap()).collect();
                         let rpt_ok = ev["frames"].as_array().unwrap().iter().all(|f| f["rpt"].as_u64() == st["m"]["rpt"].as_u64());
                         if wrote == expect && rpt_ok { agree += 1; }
@@ -261,7 +265,14 @@ pub fn run(args: &[String]) -> Value {
                         ev
                     }
                     "ack" | "lose" => { let p = match pnmap.get(&st["pn"].as_u64().unwrap()) { Some(p) => *p, None => { skipped += 1; continue; } }; a.acked(p, op == "lose") }
-                    "retire" => a.retire(st["seq"].as_u64().unwrap(), st["dcid"].as_u64().unwrap(), now),
+                    "retire" => {
+                        // should the real registry have gone another way than the machine (e.g. a smaller limit), the peer of
+                        // this run can only retire what it was really given, in a packet addressed to another id it holds
+                        let (s, d) = (st["seq"].as_u64().unwrap(), st["dcid"].as_u64().unwrap());
+                        if !held.contains(&s) || !held.contains(&d) { skipped += 1; continue; }
+                        held.retain(|x| *x != s);
+                        a.retire(s, d, now)
+                    }
                     "confirm" => { a.r.on_handshake_confirmed(); json!({"ev": "confirm"}) }
                     "tick" => { now += TICK; json!({"ev": "tick"}) }
                     "timeout" => { a.r.on_timeout(ts(now)); json!({"ev": "timeout"}) }
@@ -426,8 +437,9 @@ pub fn run_peer(args: &[String]) -> Value {
         }
     } else {
         let mut seen = std::collections::HashSet::new();
+        let cap: usize = args.get(2).and_then(|x| x.parse().ok()).unwrap_or(usize::MAX);
         for line in std::fs::read_to_string(source).unwrap().lines() {
-            if !line.starts_with("\"[") || !seen.insert(line.to_string()) { continue; }
+            if !line.starts_with("\"[") || seen.len() >= cap || !seen.insert(line.to_string()) { continue; }
             let inner: String = match serde_json::from_str(line) { Ok(v) => v, Err(_) => continue };
             let h: Vec<Value> = match serde_json::from_str(&inner) { Ok(v) => v, Err(_) => continue };
             let res = std::panic::catch_unwind(std::panic::AssertUnwindSafe(|| {
